@@ -71,9 +71,9 @@ def needsEscape (c : UInt8) (esc : Esc) (beginContent followsDigit : Bool) (next
    || (esc == .url && (c == 0x60 || c == 0x3C || c == 0x3E || isSpace c || c == 0x5C || c == 0x29 || c == 0x28))
    || (esc == .title && (c == 0x60 || c == 0x3C || c == 0x3E || c == 0x22 || c == 0x5C)))
 
-/-- `format!("%{:2X}", c)`: upper-case hex padded to width 2 with a *space*. -/
+/-- `format!("%{:02X}", c)`: `%` and two upper-case hex digits. -/
 def pct2X (c : UInt8) : Bytes :=
-  if c < 16 then [0x25, 0x20, hexDigit c] else [0x25, hexDigit (c >>> 4), hexDigit (c &&& 0xF)]
+  [0x25, hexDigit (c >>> 4), hexDigit (c &&& 0xF)]
 
 /-- What `outc` appends for one byte when its own nested write does not meet a line start
     (the general case is `outc` below). -/
@@ -291,7 +291,7 @@ def truncPrefix (st : St) (n : Nat) : St :=
 /-- `format_item` (shared with `format_task_item`): `ownStart` is the number used when no ordered
     list is open. -/
 def fmtItem (o : CmOpts) (ep : Bool) (pl : NList) (ownStart : Nat) (entering : Bool) (st : St) : St :=
-  let number := match st.olStack with | n :: _ => n | [] => ownStart
+  let number := match st.olStack with | n :: _ => (if entering then n else n - 1) | [] => ownStart
   let st := if pl.ty == .ordered && entering then
       (match st.olStack with | n :: r => { st with olStack := (n + 1) :: r } | [] => st) else st
   let marker := olMarker o number pl.delim
